@@ -131,7 +131,12 @@ class _P:
         m = re.compile(r"-?\d+").match(self.s, self.i)
         if m:
             self.i = m.end()
-            return int(m.group(0))
+            v = int(m.group(0))
+            if self.s.startswith("..", self.i):
+                m2 = re.compile(r"-?\d+").match(self.s, self.i + 2)
+                self.i = m2.end()
+                return list(range(v, int(m2.group(0)) + 1))
+            return v
         m = re.compile(r"[A-Za-z_][A-Za-z0-9_]*").match(self.s, self.i)
         if m:
             self.i = m.end()
@@ -523,8 +528,10 @@ class Ctx:
             guard += 1
             if skip >= len(starts):
                 break
-            if guard > 400:
-                raise InfraError("driver %s keeps dying (%d restarts); last stderr:\n%s" % (binary, guard, err[-3000:]))
+            if guard >= 30:
+                # enough faults recorded from this chunk; the rest of it is not executed
+                self.extra["executions_skipped_after_30_faults"] = self.extra.get("executions_skipped_after_30_faults", 0) + (len(starts) - skip)
+                break
         os.remove(script)
         return trace, guard
 
